@@ -52,7 +52,11 @@ def _violations(prop, facts_dir):
 def run(prop, repo):
     exp_path = os.path.join(VERIF, "selftest", "expect.json")
     expect = json.load(open(exp_path)) if os.path.exists(exp_path) else {}
-    mutants = sorted(sid for sid, props in expect.items() if prop in props)
+    # the seeded changes written against THIS property (all of them are reported by its own check) and the repaired defects of this property;
+    # changes written against other properties that this check also reports are listed in the catch matrix (DESIGN G3) but not replayed here,
+    # to keep the tier within minutes per property (set IWE_VERIF_SELFTEST_ALL=1 to replay those too)
+    everything = os.environ.get("IWE_VERIF_SELFTEST_ALL") == "1"
+    mutants = sorted(sid for sid, props in expect.items() if prop in props and (everything or sid.startswith("R-") or sid.split("-", 1)[0] == prop))
     silent = sorted(glob.glob(os.path.join(VERIF, "selftest", "silent", "*.diff")))
     base = os.path.join(tempfile.gettempdir(), "iwe-verif-selftest")
     os.makedirs(base, exist_ok=True)
